@@ -404,7 +404,13 @@ pub fn run(tier: &Tier) -> i32 {
                 seqs.push(s);
             }
         }
+        let macro_item = alpha.iter().position(|a| *a == A::MacroUse).unwrap();
         for s in seqs {
+            // every macro use costs the assembler about 7 ms (it builds a new parser object per use):
+            // the quick tier keeps macro uses to the sequences below the maximum length
+            if !tier.thorough && s.len() == k && s.contains(&macro_item) {
+                continue;
+            }
             if let Some(p) = build(&s, &alpha) {
                 wellformed.fetch_add(1, Ordering::Relaxed);
                 let cli = s.len() <= kcli;
@@ -424,7 +430,7 @@ pub fn run(tier: &Tier) -> i32 {
     c.states.fetch_add(st.programs.load(Ordering::Relaxed), Ordering::Relaxed);
     let mut cov = Coverage::default();
     cov.exhaustive = true;
-    cov.rule = format!("all sequences of at most {} items over a {}-item alphabet (stc, clc, cmc, labels a/b, the label start at every position, jmp/jc/jnc/loop to a/b, mov cx, call f/g, hlt, print flags, a macro use, nop, four procedure definitions incl. explicit ret + dead code, nested call and a local loop) that are well formed (labels and procedures defined once, targets defined, procedures defined before their call); each rendered to source, assembled by the real Preprocessor and run by a replica of the driver loop around the real Interpreter; the complete executed trace, the halt reason and the final registers are compared with a reference interpreter working on the AST. All programs with at most {} items also run through the real CLI binary and its stdout is matched against the reference event list. Diverging programs (reference step horizon 2000) and programs that fall into a procedure are discarded and counted. transitions = executed instructions; states = programs", k, alpha.len(), kcli);
+    cov.rule = format!("all sequences of at most {} items over a {}-item alphabet (stc, clc, cmc, labels a/b, the label start at every position, jmp/jc/jnc/loop to a/b, mov cx, call f/g, hlt, print flags, a macro use, nop, four procedure definitions incl. explicit ret + dead code, nested call and a local loop) that are well formed (in the quick tier the macro use only in sequences below the maximum length; labels and procedures defined once, targets defined, procedures defined before their call); each rendered to source, assembled by the real Preprocessor and run by a replica of the driver loop around the real Interpreter; the complete executed trace, the halt reason and the final registers are compared with a reference interpreter working on the AST. All programs with at most {} items also run through the real CLI binary and its stdout is matched against the reference event list. Diverging programs (reference step horizon 2000) and programs that fall into a procedure are discarded and counted. transitions = executed instructions; states = programs", k, alpha.len(), kcli);
     cov.bounds = json!({"max_items": k, "alphabet": alpha.len(), "cli_max_items": kcli, "programs": st.programs.load(Ordering::Relaxed), "discarded_diverging": st.diverging.load(Ordering::Relaxed), "discarded_fall_into_procedure": st.ret_empty.load(Ordering::Relaxed), "tier": tier.name()});
     cov.assumptions = common_assumptions();
     cov.assumptions.push("NOP may assemble to zero or one instruction; traces are compared with NOPs removed".into());
